@@ -49,6 +49,11 @@ type Fault struct {
 	// the very beginning, so that its commitment, its opening and its shares are all consistent).
 	WrapStart func(protocol.StartFunc) protocol.StartFunc `json:"-"`
 	Victim    party.ID                                    `json:"victim,omitempty"` // schedule "lag": the party that is served last
+	// Also, if set, is offered every other message of the deviator (not matching Slot): a non-nil return
+	// value is delivered in its place.  For deviations that span two messages of one party whose
+	// consistency cannot be reached through its state (a commitment to a malformed value in one
+	// round and its opening in a later one).
+	Also func(d drv.Delivery) *protocol.Message `json:"-"`
 }
 
 // PartyEnd describes how one party ended.
@@ -246,6 +251,8 @@ func run(spec *sess.Spec, seed int64, label string, f *Fault, observe func(drv.D
 			if f.Mode == "inject" {
 				net.Parties[d.To].Deliver(d.M)
 			}
+		} else if f != nil && f.Also != nil && d.M != nil && d.M.RoundNumber != 0 && d.M.From == f.Deviator && f.Also(d) != nil {
+			net.Parties[d.To].Deliver(f.Also(d))
 		} else if d.M != nil && d.M.RoundNumber == 0 {
 			p := net.Parties[d.To]
 			before := p.Status()
